@@ -44,6 +44,7 @@ type meta struct {
 	Chunk       int      `json:"chunk"`
 	ExtraAllow  []string `json:"extra_allow"`
 	Tags        string   `json:"tags"`
+	Racy        bool     `json:"racy"` // statement-level scheduling points in the instrumented packages
 }
 
 type finding struct {
@@ -72,6 +73,7 @@ type built struct {
 	scratch string
 	bin     string
 	stats   *instrument.Stats
+	racy    bool
 }
 
 // repoLock serialises access to /repo's working tree between concurrent checks:
@@ -117,7 +119,7 @@ func build(id string, m *meta, patch string) *built {
 	pkg := "./harness/" + strings.ToLower(id)
 	ov, st, err := instrument.Run(instrument.Options{RepoDir: repoDir, VerifDir: verifDir, OutDir: scratch,
 		Packages: []string{pkg}, GoCmd: goCmd, Env: goEnv(), SeamsDir: filepath.Join(verifDir, "seams"),
-		Patches: instrument.DefaultPatches, ExtraAllow: m.ExtraAllow})
+		Patches: instrument.DefaultPatches, ExtraAllow: m.ExtraAllow, Racy: m.Racy})
 	if err != nil {
 		os.RemoveAll(scratch)
 		die(2, "ENGINE instrumenter failed: %v", err)
@@ -131,13 +133,16 @@ func build(id string, m *meta, patch string) *built {
 		os.RemoveAll(scratch)
 		die(2, "ENGINE build of harness failed: %v\n%s", err, out)
 	}
-	return &built{scratch: scratch, bin: bin, stats: st}
+	return &built{scratch: scratch, bin: bin, stats: st, racy: m.Racy}
 }
 
 func (b *built) run(env []string, timeout time.Duration) (string, error) {
 	cmd := exec.Command(b.bin, "-test.run", "^TestSim$", "-test.timeout", "0", "-test.count", "1")
 	cmd.Dir = b.scratch
 	cmd.Env = append(os.Environ(), env...)
+	if b.racy {
+		cmd.Env = append(cmd.Env, "VERIF_RACY=1")
+	}
 	var buf strings.Builder
 	cmd.Stdout = &buf
 	cmd.Stderr = &buf
@@ -318,6 +323,7 @@ func main() {
 				total.Switches += sum.Switches
 				total.Stalls += sum.Stalls
 				total.Idles += sum.Idles
+				total.RacySwitches += sum.RacySwitches
 				total.Tasks += sum.Tasks
 				total.VirtualS += sum.VirtualS
 				total.Nontrivial += sum.Nontrivial
@@ -401,24 +407,25 @@ func main() {
 			"max_steps_per_run":   total.MaxSteps,
 			"max_tasks_per_run":   total.MaxTasks,
 			"faults_fired": map[string]any{
-				"context_switch_forced": total.Switches,
-				"task_stall_virtual":    total.Stalls,
-				"clock_jump_idle":       total.Idles,
+				"context_switch_forced":  total.Switches,
+				"task_stall_virtual":     total.Stalls,
+				"clock_jump_idle":        total.Idles,
+				"statement_level_switch": total.RacySwitches,
 			},
-			"probes":                   total.Probes,
-			"fault_kinds":              m.FaultKinds,
-			"real_components":          m.Real,
-			"stub_components":          m.Stub,
-			"worker_processes":         procs,
-			"workers":                  *workers,
-			"build_s":                  buildS,
-			"instrumented":             fmt.Sprintf("packages=%d files=%d %s", b.stats.Packages, b.stats.Files, b.stats.SortedSites()),
-			"seam_files_added":         b.stats.Added,
-			"seam_patches_applied":     b.stats.Patched,
-			"known_findings_hit":       total.Known,
-			"exhaustive":               false,
-			"determinism_selftest":     selfNote,
-			"state_measure":            "distinct event-log hashes (every scheduling decision, spawn, stall and harness event) among non-trivial runs",
+			"probes":               total.Probes,
+			"fault_kinds":          m.FaultKinds,
+			"real_components":      m.Real,
+			"stub_components":      m.Stub,
+			"worker_processes":     procs,
+			"workers":              *workers,
+			"build_s":              buildS,
+			"instrumented":         fmt.Sprintf("packages=%d files=%d %s", b.stats.Packages, b.stats.Files, b.stats.SortedSites()),
+			"seam_files_added":     b.stats.Added,
+			"seam_patches_applied": b.stats.Patched,
+			"known_findings_hit":   total.Known,
+			"exhaustive":           false,
+			"determinism_selftest": selfNote,
+			"state_measure":        "distinct event-log hashes (every scheduling decision, spawn, stall and harness event) among non-trivial runs",
 		},
 	}
 	if total.Runs == 0 {
